@@ -107,6 +107,21 @@ CHECKS = {
                         "results are compared with the same call in a fresh OS thread (tolerance 1e-9 of scale); a kept plan re-solving its first input must "
                         "reproduce its first output bit for bit"],
     },
+    "C09": {
+        "batches": [("C09", "asan", 4, 5000, 300000), ("C09", "asan", 1, 1200, 60000), ("C09", "asan", 2, 1200, 60000), ("C09", "tsan", 4, 2000, 80000),
+                    ("C09", "tsan", 1, 500, 20000), ("C09F", "tsan", 4, 160, 3000, 1), ("C09F", "asan", 4, 160, 3000, 1)],
+        "rule": ("one evaluation = one simulated run: 2-8 (thorough: 16) real threads, 3-10 ops each (fft/rfft/ifft/irfft over power-of-two, composite and prime "
+                 "lengths, xcorr, FftFilter, welch, resample, window::kaiser, a random stream processor, rng/rand/randn/randi/awgn, primes/factor) plus 0-3 plan "
+                 "objects (FftPlan, FftPlanR, IfftPlan, IfftPlanR, CztPlan of every length class) created before the threads start and solved concurrently; "
+                 "12 % of the threads only start when another thread has exited (cold caches). Schedule policy per run: op-boundary switches, uniform "
+                 "basic-block preemption (p log-uniform 1e-5..1e-2), PCT with 1-3 priority change points, or one starved thread. Builds with cache size 1/2/4; "
+                 "engine C09F: one run per process without warm-up so that the guarded static in window.cpp is first used inside the simulation. "
+                 "Non-trivial: >= 1 switch besides the start; distinct by (schedule hash, result digest)."),
+        "assumptions": ["result oracle: the same thread's op list run alone in a fresh thread, using the same shared plan objects (tolerance 1e-9; random draws, primes, "
+                        "factor exactly)", "race oracle: ThreadSanitizer (clang 14) with the scheduler's futex hand-off invisible to it; first report ends the run",
+                        "preemption granularity is the basic-block edge of instrumented code (library, headers, harness); libstdc++/libc internals are not preempted"],
+        "required_probes": ["probe.shared_plan_solved_by_2plus_threads", "fault.preempt", "fault.thread_exit_and_cold_restart"],
+    },
 }
 
 
@@ -192,13 +207,15 @@ def run_check(pid, tier, seed, nworkers=None, runs_override=None):
     wall_batches = 0.0
     infra = []
     per_batch = []
-    for (engine, flavour, cache, nq, nt) in cfg["batches"]:
+    for bt in cfg["batches"]:
+        engine, flavour, cache, nq, nt = bt[:5]
+        chunk = bt[5] if len(bt) > 5 else None
         n = nq if tier == "quick" else nt
         if runs_override:
             n = runs_override
         exe = build.worker_path(flavour, cache, root)
         b = runner.Batch(exe, engine, seed * 1000003 + cache * 101 + (7 if flavour == "tsan" else 0), n, tier, nworkers if flavour == "asan" else max(1, nworkers),
-                         flavour, cache)
+                         flavour, cache, chunk=chunk)
         recs = b.run()
         wall_batches += b.wall
         infra += b.infra_errors
